@@ -175,5 +175,20 @@ PROPS['C15'] = {
               'Prefix-SID TLV containers are not in this check yet',
 }
 
+PROPS['C11'] = {
+    'module': 'Yabgp.Props.C11',
+    'theorems': ['Yabgp.C11_update_never_raises', 'Yabgp.C11_update_raises_only_out_of_range', 'Yabgp.C11_update_first_field',
+                 'Yabgp.C11_prefix_progress', 'Yabgp.C11_prefix_work', 'Yabgp.C11_attr_progress', 'Yabgp.C11_aspath_work',
+                 'Yabgp.C11_caps_progress', 'Yabgp.C11_words_work', 'Yabgp.C04_terminates'],
+    'genagree': ['Yabgp.GenAgree.attr_codes', 'Yabgp.GenAgree.attr_ids', 'Yabgp.GenAgree.update_errors'],
+    'suites': ['decoders', 'update'],
+    'cannot': 'PARTIAL: termination (total Lean definitions without fuel), per-iteration progress, work bounds and never-raises are '
+              'proved for the decoders that are modelled: UPDATE framing, IPv4 prefix lists, the standard attributes incl. AS_PATH, '
+              'communities, OPEN with all capability loops, NOTIFICATION, KEEPALIVE, ROUTE-REFRESH, and the receive-buffer deframer. '
+              'The multiprotocol, BGP-LS, Prefix-SID, tunnel and extended-community decoders are exercised on the real code under a '
+              'CPU budget through Update.parse (every type code x length 0..16, every 1-octet / length-field mutation of the '
+              'repo\'s own encodings) but are not covered by a theorem in this check yet; CPU time itself is only measured',
+}
+
 # properties not claimed yet, with the reason that goes into MANIFEST.not_applicable
 NOT_YET = {}
